@@ -25,7 +25,7 @@ import (
 func init() {
 	fw.Register(&fw.Check{
 		ID: "C16", Level: "model_checking",
-		Rule:   "controlled cooperative scheduler + DFS over schedules with iterative preemption bounding (0, 1, 2; thorough 3) on a source-instrumented build (import \"sync\" -> scheduler-aware shim; every statement touching the guarded fields of a mutex-bearing struct or a mutable package-level variable preceded by an access hook = scheduling point; every write to a struct field reached through a pointer, and every read of a field that some statement writes, reported to the happens-before monitor without a scheduling point (all packages but the scanner); the pinned schema library's own synchronisation (two RWMutexes, one Once, two sync.Pools - the pools as deterministic LIFO free lists, fresh per execution, Get / Put scheduling points with the Put -> Get happens-before edge) redirected to the same shim; generated VerifResetGlobals). H1: for each of the 7 generated collection types, every scenario of 2 writers x 1 reader with one operation each from {Set, SetToTop, Update, Set other key} x {Get, Len, Each, MarshalJSON} on keys forced to collide, from an empty or pre-filled collection: no data race (vector-clock happens-before monitor), no deadlock, the history is linearizable against a sequential ordered-map reference (brute force over the <= 3! orders consistent with real time), no lost update, every key once in the order; H2: 2-3 threads making the process's first calls to NewDirectiveType; H3: two whole parses (same / different / rejected documents) against package-level state, and 2-3 whole parses that were handed the same option value; H4: one validated catalog whose first serialisation and reads happen in 2-3 threads at once (reference result from a second catalog built from the same text); plus a free-running pass of the same bodies under the Go race detector; non-trivial = schedule in which at least two threads touched the same object; distinct = distinct (scenario, schedule)",
+		Rule:   "controlled cooperative scheduler + DFS over schedules with iterative preemption bounding (0, 1, 2; thorough 3) on a source-instrumented build (import \"sync\" -> scheduler-aware shim; every statement touching the guarded fields of a mutex-bearing struct or a mutable package-level variable preceded by an access hook = scheduling point; every write to a struct field reached through a pointer, and every read of a field that some statement writes, reported to the happens-before monitor without a scheduling point (all packages but the scanner); the pinned schema library's own synchronisation (two RWMutexes, one Once, two sync.Pools - the pools as deterministic LIFO free lists, fresh per execution, Get / Put scheduling points with the Put -> Get happens-before edge) redirected to the same shim; generated VerifResetGlobals). H1: for each of the 7 generated collection types, every scenario of 2 writers x 1 reader with one operation each from {Set, SetToTop, Update, Set other key} x {Get, Len, Each, MarshalJSON} on keys forced to collide, from an empty or pre-filled collection: no data race (vector-clock happens-before monitor), no deadlock, the history is linearizable against a sequential ordered-map reference (brute force over the <= 3! orders consistent with real time), no lost update, every key once in the order; H2: 2-3 threads making the process's first calls to NewDirectiveType; H3: two whole parses (same / different / rejected documents) against package-level state, and 2-3 whole parses that were handed the same option value; H4: one validated catalog whose first serialisation and reads happen in 2-3 threads at once (reference result from a second catalog built from the same text); plus a free-running pass of the same bodies under the Go race detector; non-trivial = schedule in which at least two threads touched the same object; distinct = distinct (scenario, schedule) ; H1 reader op keys-stop: an iteration stopped by its callback after the first element (what it leaves locked blocks the writers: deadlock)",
 		Assume: []string{"weak-memory reorderings are not modelled: the happens-before monitor reports the race that would permit them", "the schema library's own synchronisation is covered only by the free-running race-detector pass"},
 		Run:    runC16, QuickCap: 10 * time.Minute, ThoroughCap: 40 * time.Minute,
 	})
